@@ -175,6 +175,10 @@ pub fn eval_opts(src: &str, skip_cyclic: bool) -> (Front, Option<tx3_lang::ast::
                         tx3_lang::analyzing::Error::MetadataSizeLimitExceeded(_) => ("metadata_size".into(), None),
                         tx3_lang::analyzing::Error::MetadataInvalidKeyType(_) => ("metadata_key_type".into(), None),
                         tx3_lang::analyzing::Error::InvalidOptionalOutput(_) => ("optional_output".into(), None),
+                        // a diagnostic kind the harness does not know by name (the enum may grow): named after
+                        // its Debug rendering's head
+                        #[allow(unreachable_patterns)]
+                        other => (format!("{:?}", other).split(|c: char| !c.is_alphanumeric()).next().unwrap_or("other").to_lowercase(), None),
                     };
                     AnalysisDiag { kind, name, span: span_info(e.span()), text: format!("{}", e) }
                 })
